@@ -34,7 +34,7 @@ CHECKS = {
     "C07": seq(["TestC07"], fuzz={"FuzzC07Xattr": 240}),
     "C08": seq(["TestC08Seq", "TestC08Order"], per_test={"TestC08Order": SCRIPT}),
     "C09": seq(["TestC09Seq", "TestC09Gap"], per_test={"TestC09Gap": SCRIPT}),
-    "C10": seq(["TestC10"], qchecks=40, tchecks=150, level="fault_enumeration"),
+    "C10": seq(["TestC10", "TestC10Expiry"], qchecks=40, tchecks=150, level="fault_enumeration", per_test={"TestC10Expiry": (2, 2, 8, 12)}),
     "C11": seq(["TestC11"], qchecks=150, tchecks=1500),
     "C12": seq(["TestC12"], qchecks=200, tchecks=1200),
     "C13": seq(["TestC13", "TestC13Race"], qchecks=400, tchecks=4000, qshards=4),
